@@ -141,6 +141,7 @@ package client
 //@   before call sendCh assert forward-needs-ack: called(Transmitter) && lastret(Transmitter, 1) == nil && lastarg(Transmitter, 0) == arg2 && arg1 == broker.chTransmitted
 //@   before call (*Broker).handleSendError assert recovery-of-the-failed-payload: called(Transmitter) && lastret(Transmitter, 1) != nil && arg1 == lastarg(Transmitter, 0) && arg2 == lastret(Transmitter, 0)
 //@   loop 1 backedge assert retry-keeps-remainder: called((*Broker).handleSendError) && payload == lastret((*Broker).handleSendError, 0) && payload != nil
+//@   before call sts.Payload.Remove assert acknowledged-count-applied-before-parts-move: called((*Broker).handleSendError) && lastarg((*Broker).handleSendError, 2) == lastret(Transmitter, 0)
 //@   before call sts.Payload.Remove assert changed-files-dropped: arg0 == payload && arg1 == binned && (file == nil || (called(sts.FileSource.Sync) && (lastret(sts.FileSource.Sync, 0) != nil || lastret(sts.FileSource.Sync, 1) != nil)))
 //@   loop 3 backedge assert unchanged-files-kept: !called(sts.Payload.Remove) ==> called(sts.FileSource.Sync) && lastret(sts.FileSource.Sync, 0) == nil && lastret(sts.FileSource.Sync, 1) == nil && lastarg(sts.FileSource.Sync, 1) == file && file == lastret(sts.FileCache.Get, 0) && lastarg(sts.FileCache.Get, 1) == binned.GetName()
 
